@@ -85,12 +85,12 @@ def run(ctx):
         ctx.check(ok, "C11.5", "Zone::deserialise:propagates-parse-error", "an entry error ends the load (no record is inserted afterwards)", "parse errors do not abort the load", zd.loc(b))
 
     # ---------------------------------------------------------------- C11.2
+    # the loop-carried state (current origin, previous owner, previous TTL): the variables handed to parse_entry
     names = {}
-    for l in sorted(zd.names):
-        n = zd.names[l]
-        # the loop-carried state variables (not pattern bindings that shadow them)
-        if n not in names or (len(zd.defs().get(l, [])) > len(zd.defs().get(names[n], []))):
-            names[n] = l
+    if len(pe_calls) == 1:
+        roots_ = [_arg_root(zd, a) for a in pe_calls[0][1]["args"][:3]]
+        if len(roots_) == 3 and None not in roots_ and len(set(roots_)) == 3:
+            names = {"origin": roots_[0], "previous_domain": roots_[1], "previous_ttl": roots_[2]}
     pd, pt = names.get("previous_domain"), names.get("previous_ttl")
     ctx.check(pd is not None and pt is not None, "C11.2", "inherit:variables", "found previous_domain / previous_ttl", "inheritance state variables missing", zd.loc())
     if pd is not None and pt is not None:
@@ -126,7 +126,7 @@ def run(ctx):
     for b, t in pe_calls:
         e = r.call_expr(t, b)
         roots = [_arg_root(zd, a) for a in t["args"][:3]]
-        ok = roots == [names.get("origin"), pd, pt]
+        ok = roots == [names.get("origin"), pd, pt] and all(len([d for d in zd.defs().get(x, []) if d[2] != "partial"]) >= 2 for x in roots if x is not None)   # each is re-assigned in the loop
         ctx.check(ok, "C11.2", "Zone::deserialise->parse_entry", "the loop passes its origin / previous_domain / previous_ttl", "parse_entry gets %s" % [A.show(x)[:40] for x in e[2][:3]], zd.loc(b))
     # parse_rr: missing owner / TTL
     prr = prog.find("zones::deserialise::parse_rr")
